@@ -105,6 +105,22 @@ def verify_function(c: Contract, registry: Dict[str, Contract]) -> FunctionResul
             st.assume(ex.spec_bool(st, r, dict(st.locals), fi))
         entry = st.fork()
         st.old = entry
+        ex.lets = {}
+        for lname, (lparam, ltype, ltext) in c.lets.items():
+            lth = parse_hint(ltype)
+            fn = z3.Function(f"let_{lname}", z3.IntSort(), V)
+            jv = fresh(lparam, z3.IntSort())
+            es = entry.fork()
+            es.no_type_facts = True
+            npc = len(es.pc)
+            from .sym import vint as _vint
+
+            val = ex.eval_spec(es, ltext, dict(entry.locals, **{lparam: _vint(jv)}), fi, old=entry)
+            side = es.pc[npc:]
+            body_ = fn(jv) == ex.to_z(es, val)
+            st.assume(z3.ForAll([jv], z3.And(side + [body_]) if side else body_))
+            st.heap, st.nalloc, st.alloc_base = st.heap, st.nalloc, st.alloc_base
+            ex.lets[lname] = (fn, lth)
         # vacuity guard: the precondition must be satisfiable
         ex.oblige("cover.requires", st, z3.BoolVal(False), fi.lineno, "cover", " and ".join(c.requires) or "True")
         outs = ex.exec_block(fi.node.body, st)
